@@ -559,4 +559,94 @@ theorem base2_eq_S (T : List Nat) (hpos : 0 < T.getD 0 0 + T.getD 1 0) (n : Nat)
     · rw [Nat.mul_comm]
     · rw [Nat.mul_zero]
 
+/-! ### the step and the main theorem -/
+
+/-- the value one level down as the memo table supplies it (hit / completion rule / 0) is the count -/
+theorem look_val (T : List Nat) (j : Nat)
+    (ih : ∀ (n : Nat) (u : Int), A T (j + 2) (n : Int) u = S T (j + 2) n u) (m : Nat) (u' : Int) :
+    (match (if inRange T (j + 2) ((m : Int), u') then some (A T (j + 2) (m : Int) u') else none) with
+      | some v => v
+      | none => if twoUmax T (j + 2) (m : Int) < u'
+          then chooseI ((sumTo T (j + 2) : Nat) : Int) (m : Int) else 0)
+      = S T (j + 2) m u' := by
+  by_cases hin : inRange T (j + 2) ((m : Int), u') = true
+  · rw [if_pos hin]; exact ih m u'
+  · rw [if_neg hin]
+    show (if twoUmax T (j + 2) (m : Int) < u'
+          then chooseI ((sumTo T (j + 2) : Nat) : Int) (m : Int) else 0) = _
+    by_cases hmax : twoUmax T (j + 2) (m : Int) < u'
+    · rw [if_pos hmax, chooseI_eq, S_above_max T _ _ _ (le_of_lt hmax)]
+    · rw [if_neg hmax, S_below_min]
+      simp only [inRange, Bool.and_eq_true, decide_eq_true_eq, not_and] at hin
+      by_contra hc
+      exact hin (not_lt.mp hc) (not_lt.mp hmax)
+
+theorem A_eq_S (T : List Nat) (hpos : 0 < T.getD 0 0 + T.getD 1 0) : ∀ (j n : Nat) (u : Int),
+    A T (j + 2) (n : Int) u = S T (j + 2) n u := by
+  intro j
+  induction j with
+  | zero => intro n u; exact base2_eq_S T hpos n u
+  | succ j ih =>
+    intro n u
+    show stepA T (j + 3)
+        (fun key => if inRange T (j + 2) key then some (A T (j + 2) key.1 key.2) else none) (n : Int) u
+      = S T (j + 3) n u
+    unfold stepA rkLow rkHigh
+    simp only [Nat.add_sub_cancel]
+    have hL : max (0 : Int) ((n : Int) - ((sumTo T (j + 2) : Nat) : Int))
+        = ((n - sumTo T (j + 2) : Nat) : Int) := by omega
+    rw [hL, sumRange_eq_Ico]
+    have hH : (min (n : Int) ((T.getD (j + 2) 0 : Nat) : Int) + 1).toNat = min (T.getD (j + 2) 0) n + 1 := by
+      omega
+    rw [hH, S, Finset.range_eq_Ico]
+    have hsub : Finset.Ico (n - sumTo T (j + 2)) (min (T.getD (j + 2) 0) n + 1)
+        ⊆ Finset.Ico 0 (min (T.getD (j + 2) 0) n + 1) := by
+      intro r hr
+      have := Finset.mem_Ico.mp hr
+      exact Finset.mem_Ico.mpr ⟨Nat.zero_le _, this.2⟩
+    symm
+    rw [← Finset.sum_subset hsub]
+    · apply Finset.sum_congr rfl
+      intro r hr
+      have hr' := Finset.mem_Ico.mp hr
+      obtain ⟨k1, k2⟩ := klotz_step T (j + 2) (n : Int) u (r : Int)
+      have c : (n : Int) - (r : Int) = ((n - r : Nat) : Int) := by omega
+      have hkey : subKey T (j + 2 + 1) (n : Int) u (r : Int)
+          = (((n - r : Nat) : Int), u - (2 * (r : Int) * ((sumTo T (j + 2) : Int) - ((n - r : Nat) : Int))
+              + (r : Int) * (((T.getD (j + 2) 0 : Nat) : Int) - (r : Int)))) := by
+        refine Prod.ext ?_ ?_
+        · rw [k1, c]
+        · rw [k2, c]
+      show _ = (match (if inRange T (j + 2) (subKey T (j + 2 + 1) (n : Int) u (r : Int))
+            then some (A T (j + 2) (subKey T (j + 2 + 1) (n : Int) u (r : Int)).1
+              (subKey T (j + 2 + 1) (n : Int) u (r : Int)).2) else none) with
+          | some v => v
+          | none => if twoUmax T (j + 2) (subKey T (j + 2 + 1) (n : Int) u (r : Int)).1
+                < (subKey T (j + 2 + 1) (n : Int) u (r : Int)).2
+              then chooseI ((sumTo T (j + 2) : Nat) : Int) (subKey T (j + 2 + 1) (n : Int) u (r : Int)).1
+              else 0) * chooseI ((T.getD (j + 2) 0 : Nat) : Int) (r : Int)
+      rw [hkey]
+      simp only []
+      rw [look_val T j ih, chooseI_eq, Nat.mul_comm]
+    · intro r hr hnr
+      have h1 := Finset.mem_Ico.mp hr
+      have h2 : r < n - sumTo T (j + 2) := by
+        by_contra h
+        exact hnr (Finset.mem_Ico.mpr ⟨by omega, h1.2⟩)
+      rw [S_big T _ _ _ (by omega), Nat.mul_zero]
+
+/-- **the tied recurrence is exact**: the pure form of the memoised counting recurrence of
+    `makeUmemo` (with its pruning and completion rule) is the number of assignments with
+    doubled statistic ≤ twoU -/
+theorem tied_recurrence_exact (T : List Nat) (hT : ∀ t ∈ T, 0 < t) (hK : 2 ≤ T.length) (n1 : Nat)
+    (hn : n1 ≤ T.sum) (twoU : Int) :
+    Stats.UDist.A T T.length (n1 : Int) twoU = groupCount T n1 twoU := by
+  have h0 : 0 < T.getD 0 0 := by
+    have : 0 < T.length := by omega
+    rw [List.getD_eq_getElem _ _ this]
+    exact hT _ (List.getElem_mem _)
+  obtain ⟨j, hj⟩ : ∃ j, T.length = j + 2 := ⟨T.length - 2, by omega⟩
+  rw [← S_eq_groupCount, hj]
+  exact A_eq_S T (by omega) j n1 twoU
+
 end C11
